@@ -27,21 +27,30 @@ for p in props:
     cov = ev.get("coverage", {})
     fixed = [e for e in kf if e["property"] == pid and e.get("status") == "fixed"]
     known = [e for e in kf if e["property"] == pid and e.get("status") == "known"]
-    seed = ""
-    sm = HERE / "seeded" / pid / "meta.json"
-    if sm.exists():
+    def seed_cell(d):
+        sm = HERE / "seeded" / d / "meta.json"
+        if not sm.exists():
+            return ""
         try:
-            c = json.loads(sm.read_text()).get("coordinator_confirmation", {})
-            if c:
-                sigs = ",".join(sorted({r.get("signature", "?") for r in c.get("replays", [])})) or ("no-failing-input-found" if c.get("check_exit") == 1 else "")
-                seed = ("caught: " + sigs) if c.get("caught") else ("MISSED" if c.get("patch_applies") else "patch n/a")
+            mj = json.loads(sm.read_text())
+            c = mj.get("coordinator_confirmation", {})
+            if not c:
+                return ""
+            sigs = ",".join(sorted({r.get("signature", "?") for r in c.get("replays", [])})) or ("no-failing-input-found" if c.get("check_exit") == 1 else "")
+            cell = ("caught: " + sigs) if c.get("caught") else ("MISSED" if c.get("patch_applies") else "patch n/a")
+            missed_before = any(("MISSED" in json.dumps(h)) or (isinstance(h, dict) and h.get("earlier_evaluation", {}).get("caught") is False) for h in mj.get("history", []))
+            if missed_before and c.get("caught"):
+                cell = "missed, check strengthened, now " + cell
+            return cell
         except Exception:
-            pass
+            return ""
+    seed = seed_cell(pid)
+    seed2 = seed_cell(pid + "-r2")
     rows.append(f"| {pid} | {'claimed' if ready else 'not claimed'} | {cov.get('discharged', '-')}/{cov.get('obligations', '-')} | "
                 f"{cov.get('evaluations', '-')} | {' '.join(e.get('commit', '?') for e in fixed) or '-'} | "
-                f"{len(known) or '-'} | {seed or '-'} | notes/{pid}.md |")
-table = ("| id | status | obligations (last run) | cases (last run) | `fix:` commits in /repo | known findings | independent seeded change | details |\n"
-         "|----|--------|------------------------|------------------|--------------------------|----------------|---------------------------|---------|\n" + "\n".join(rows))
+                f"{len(known) or '-'} | {seed or '-'} | {seed2 or '-'} | notes/{pid}.md |")
+table = ("| id | status | obligations (last run) | cases (last run) | `fix:` commits in /repo | known findings | seeded change, round 1 | seeded change, round 2 | details |\n"
+         "|----|--------|------------------------|------------------|--------------------------|----------------|-----------------------|-----------------------|---------|\n" + "\n".join(rows))
 d = (HERE / "DESIGN.md").read_text()
 a, b = "<!-- AS-BUILT:BEGIN -->", "<!-- AS-BUILT:END -->"
 if a in d:
